@@ -8,6 +8,9 @@ seeds; each value is compared with an independent reference (truth tables, sums,
 from __future__ import annotations
 
 import itertools
+import json
+import os
+import sys
 import math
 import random
 from datetime import timedelta
@@ -18,6 +21,7 @@ from vmc import bootstrap
 bootstrap.setup()
 
 from vmc.checks.grid import run_grid  # noqa: E402
+from vmc.report import Violation  # noqa: E402
 from workflows import retry_policy as rp  # noqa: E402
 
 PID = "C07"
@@ -501,8 +505,99 @@ RULE = ("every retry-condition term of depth <= 2 (15 atoms incl. a plain callab
         "tables / sums / documented bounds; non-trivial = terms whose value varies over the inputs")
 
 
+# --------------------------------------------------- the same seed in another process (another hash salt) -------
+HASH_SALTS = ("1", "2")  # PYTHONHASHSEED of the two child processes
+
+
+def _seeded_values(t: Any) -> list[Any]:
+    obj = w_build(t)
+    out = []
+    for n in ATTEMPTS:
+        for seed in SEEDS:
+            if seed is None:
+                continue
+            try:
+                out.append(repr(obj(n, seed=seed)))
+            except Exception as x:  # noqa: BLE001
+                out.append("raised " + type(x).__name__)
+    return out
+
+
+def _table_main(tier: str, only: int | None) -> None:
+    """child process: one line per wait term - its index and a digest of all seeded values (or the values themselves)"""
+    import hashlib
+
+    for i, t in enumerate(w_terms(tier)):
+        if only is not None:
+            if i == only:
+                print(json.dumps(_seeded_values(t)))
+            continue
+        print(i, hashlib.md5(repr(_seeded_values(t)).encode()).hexdigest())
+
+
+def _child_table(tier: str, salt: str, only: int | None = None) -> list[str]:
+    import subprocess
+
+    env = dict(os.environ, PYTHONHASHSEED=salt)
+    root = os.path.dirname(os.path.dirname(os.path.dirname(os.path.abspath(__file__))))
+    r = subprocess.run([sys.executable, "-c", f"from vmc.checks import c07; c07._table_main({tier!r}, {only!r})"],
+                       cwd=root, env=env, capture_output=True, text=True, timeout=1200)
+    if r.returncode != 0:
+        raise RuntimeError("child table process failed: " + r.stderr[-2000:])
+    return r.stdout.splitlines()
+
+
+def cross_process(tier: str, only: int | None = None) -> tuple[int, list[Any]]:
+    """every seeded value of every wait term, computed in two fresh processes with different hash salts, must agree (a
+    replaying process is another process: 'deterministic for a given seed' has to hold across them)"""
+    from concurrent.futures import ThreadPoolExecutor
+
+    terms = w_terms(tier)
+    v: list[Any] = []
+    if only is None:
+        with ThreadPoolExecutor(2) as tp:
+            ta, tb = list(tp.map(lambda sa: _child_table(tier, sa), HASH_SALTS))
+        differing = [int(a.split()[0]) for a, b in zip(ta, tb) if a != b]
+        if len(ta) != len(terms) or len(tb) != len(terms):
+            raise RuntimeError("child tables are incomplete")
+        first_of_kind: dict[str, int] = {}
+        for i in differing:
+            first_of_kind.setdefault(w_kind(terms[i]), i)
+        differing = sorted(first_of_kind.values())  # (one witness per kind of strategy: the details cost two processes each)
+    else:
+        differing = [only]
+    for i in differing:
+        va, vb = (json.loads(_child_table(tier, sa, i)[0]) for sa in HASH_SALTS)
+        keys = [(n, sd) for n in ATTEMPTS for sd in SEEDS if sd is not None]
+        bad = [(k, a, b) for k, a, b in zip(keys, va, vb) if a != b]
+        if bad:
+            (n, sd), a, b = bad[0]
+            v.append(("jitter_not_deterministic_for_seed", {"kind": w_kind(terms[i]), "across": "processes_with_different_hash_salts"},
+                      f"{terms[i]}(attempts={n}, seed={sd}) = {a} in one process and {b} in another ({len(bad)} of {len(keys)} seeded values differ)",
+                      {"cross_process_term": i, "tier": tier}))
+    return len(terms) * len(ATTEMPTS) * (len(SEEDS) - 1) * 2, v
+
+
 def run(tier: str, seed: int) -> Any:
     cs = cases(tier)
+    res = _run_grid_part(tier, seed, cs)
+    n, viols = cross_process(tier)
+    res.evaluations += n
+    res.states += n
+    res.transitions += n
+    res.traces_validated += n
+    seen = set()
+    for clause, w, d, rep in viols:
+        k = (clause, repr(sorted(w.items())))
+        if k in seen:
+            continue
+        seen.add(k)
+        res.add_violation(Violation(clause, w, d, rep))
+    res.extra["cross_process_hash_salts"] = list(HASH_SALTS)
+    return res
+
+
+def _run_grid_part(tier: str, seed: int, cs: list[Any]) -> Any:
     res = run_grid(PID, RULE, cs, work, seed=seed, chunksize=64, assumptions=[
         "parameters are sane (min <= max, non-negative bounds, exp_base >= 0): outside that the documentation states no bounds",
         "unseeded jitter uses the global random module; only bounds are checked there"],
@@ -518,6 +613,9 @@ def replay(rec: dict[str, Any]) -> tuple[bool, str]:
             return [tup(i) for i in x]
         return x
 
+    if "cross_process_term" in rec:
+        _, v = cross_process(rec["tier"], rec["cross_process_term"])
+        return (not v), "\n".join(f"VIOLATED {c} {w}: {d}" for c, w, d, _ in v)
     kind, t = rec["case"]
     _, _, v, _ = work((kind, tup(t)))
     return (not v), f"case={rec['case']}\n" + "\n".join(f"VIOLATED {c} {w}: {d}" for c, w, d, _ in v)
